@@ -70,15 +70,7 @@ fn hash_ipv4_flow(ip_packet: &[u8], num_workers: usize) -> usize {
     let src_port = u16::from_be_bytes([tcp_header[0], tcp_header[1]]);
     let dst_port = u16::from_be_bytes([tcp_header[2], tcp_header[3]]);
 
-    let mut hasher = DefaultHasher::new();
-    src_ip.hash(&mut hasher);
-    dst_ip.hash(&mut hasher);
-    src_port.hash(&mut hasher);
-    dst_port.hash(&mut hasher);
-
-    (hasher.finish() as usize)
-        .checked_rem(num_workers)
-        .unwrap_or(0)
+    hash_endpoint_pair((src_ip, src_port), (dst_ip, dst_port), num_workers)
 }
 
 /// Hashes IPv6 flow (src_ip, dst_ip, src_port, dst_port).
@@ -108,12 +100,18 @@ fn hash_ipv6_flow(ip_packet: &[u8], num_workers: usize) -> usize {
     let src_port = u16::from_be_bytes([tcp_header[0], tcp_header[1]]);
     let dst_port = u16::from_be_bytes([tcp_header[2], tcp_header[3]]);
 
-    let mut hasher = DefaultHasher::new();
-    src_ip.hash(&mut hasher);
-    dst_ip.hash(&mut hasher);
-    src_port.hash(&mut hasher);
-    dst_port.hash(&mut hasher);
+    hash_endpoint_pair((src_ip, src_port), (dst_ip, dst_port), num_workers)
+}
 
+/// Hashes the unordered pair of endpoints, so that both directions of a connection (request and
+/// response) are assigned to the same worker.
+fn hash_endpoint_pair(a: (&[u8], u16), b: (&[u8], u16), num_workers: usize) -> usize {
+    let (first, second) = if a <= b { (a, b) } else { (b, a) };
+    let mut hasher = DefaultHasher::new();
+    first.0.hash(&mut hasher);
+    first.1.hash(&mut hasher);
+    second.0.hash(&mut hasher);
+    second.1.hash(&mut hasher);
     (hasher.finish() as usize)
         .checked_rem(num_workers)
         .unwrap_or(0)
